@@ -57,7 +57,7 @@ func nonPowerOfTwoProjection(tile maptile.Tile, extent uint32) *projection {
 			}
 		},
 		ToWGS84: func(p orb.Point) orb.Point {
-			lon, lat := mercator.ToGeo((p[0]/e)+minx, (p[1]/e)+miny, z)
+			lon, lat := mercator.ToGeo(((p[0]+0.5)/e)+minx, ((p[1]+0.5)/e)+miny, z)
 			return orb.Point{lon, lat}
 		},
 	}
